@@ -21,4 +21,4 @@ META = {
 
 def run(ctx):
     import engine
-    engine.run_rules(ctx, [dt.r06_1, dt.r06_2, dt.r06_3, dt.r06_4, dt.r06_5, dt.r05_3, dt.r05_6, dt.r03_2, dt.r03_6, dt.r02_6, dt.r02_1])
+    engine.run_rules(ctx, [dt.r06_1, dt.r06_2, dt.r06_3, dt.r06_4, dt.r06_5, dt.r05_3, dt.r05_6, dt.r03_2, dt.r03_6, dt.r02_6, dt.r02_1, dt.r02_7])
